@@ -195,6 +195,15 @@ def minimise(mod, kind, tape_values, clause_sig, max_runs):
     return shrink(tape_values, still, max_runs=max_runs)
 
 
+def _shrink_job(args):
+    mod_name, kind, tape_values, sig, budget = args
+    import importlib
+    mod = importlib.import_module(mod_name)
+    if budget <= 0:
+        return list(tape_values), 0
+    return minimise(mod, kind, tape_values, sig, budget)
+
+
 def write_replay(mod, kind, verif_seed, r, clause_sig, min_tape, out, shrink_runs):
     os.makedirs(os.path.join(OUT, 'replays'), exist_ok=True)
     path = os.path.join(OUT, 'replays', '%s-%s-%016x.json' % (
@@ -293,6 +302,7 @@ def run_check(mod, tier, verif_seed, workers=None, budget_scale=None):
     n_viol = 0
     known_seen = {}
     max_shrink = int(os.environ.get('VERIF_SHRINK', 300))
+    todo = []
     for sig, r in by_sig.items():
         ke = known_entry(prop, sig)
         if ke is not None:
@@ -300,8 +310,28 @@ def run_check(mod, tier, verif_seed, workers=None, budget_scale=None):
             lines.append('KNOWN-FINDING: property=%s %s [signature %s, %d runs]' % (
                 prop, ke['what_fails'], sig, counts[sig]))
             continue
+        todo.append((sig, r))
+    # minimise each distinct signature once, in parallel (first few only; the rest are
+    # reported with their original tape)
+    shrunk = {}
+    if todo:
+        jobs2 = [(mod.__name__, r['kind'], r['tape'], sig, max_shrink if i < 8 else 0)
+                 for i, (sig, r) in enumerate(todo)]
+        if workers <= 1 or len(jobs2) == 1:
+            for j in jobs2:
+                shrunk[j[3]] = _shrink_job(j)
+        else:
+            ex2 = cf.ProcessPoolExecutor(max_workers=min(workers, len(jobs2)), mp_context=ctx)
+            try:
+                for j, res in zip(jobs2, ex2.map(_shrink_job, jobs2, timeout=1800)):
+                    shrunk[j[3]] = res
+            except Exception:
+                harness_errors.append('minimise: ' + traceback.format_exc()[-3000:])
+            finally:
+                ex2.shutdown(wait=False, cancel_futures=True)
+    for sig, r in todo:
         try:
-            min_tape, nruns = minimise(mod, r['kind'], r['tape'], sig, max_shrink)
+            min_tape, nruns = shrunk.get(sig, (r['tape'], 0))
             out = execute(mod, r['kind'], Tape(replay=min_tape))
             if not any(v.signature == sig for v in out.violations):
                 min_tape, nruns = r['tape'], 0
